@@ -336,7 +336,9 @@ func (db *DB) Merge() error {
 				}
 
 				// check if we have a new entry with same key and bucket
-				if r, _ := db.getRecordFromKey(entry.Meta.bucket, entry.Key); r != nil && !skipEntry {
+				// (only key/value entries are indexed there: a set, list or sorted-set entry that
+				// happens to share its bucket and key with a key/value pair must not be judged by it)
+				if r, _ := db.getRecordFromKey(entry.Meta.bucket, entry.Key); r != nil && !skipEntry && entry.Meta.ds == DataStructureBPTree {
 					if r.H.fileID > int64(pendingMergeFId) {
 						skipEntry = true
 					} else if r.H.fileID == int64(pendingMergeFId) && r.H.dataPos > uint64(off) {
